@@ -31,6 +31,7 @@ type harnessCfg struct {
 	seed       int64
 	Stall      bool
 	TimeFixed  bool
+	SymAddr    bool // object addresses are symbolic (alignment is explored)
 	TimersMayFire bool // timers created with a finite duration may fire (forked)
 	TimeBudget time.Duration // wall-clock budget for the exploration of one harness
 }
